@@ -30,6 +30,10 @@ def clock(c):
     return '(CTempo %d)' % c[1]
 
 
+def clock_name(c):
+    return c if c in ('S', 'A') else 'T%d' % c[1]
+
+
 def elem(e):
     if e[0] == 'm':
         return '(EMsg %s)' % cz(e[1])
@@ -435,4 +439,157 @@ def score_monitors(p, o):
                             % (T, lat, e[5][2], e[5][3])))
             if not any(s == e[5] for s in sc):
                 bad.append(('score_times_exact', None, 'bundle %s is not in the score' % (e[5],)))
+    return bad
+
+
+# ------------------------------------------------------------------ scenario class: every (parent clock, child clock) pair
+CLOCK_KINDS = ['S', 'A', ['T', 0], ['T', 1]]
+NONUNIT_TEMPI = ['2', '1/2', '4', '1/4']
+
+
+def gen_cross_prog(rng, k, rt=False):
+    """A routine started at a NON-ZERO time on clock pc advances its time, then starts a child on clock cc, which
+    starts a grandchild on a third clock; k enumerates all (pc, cc) pairs (incl. App<-Tempo, Tempo<-App,
+    Tempo_i<-Tempo_j); the two TempoClocks have different tempi != 1, so beats != seconds everywhere."""
+    kinds = [c for c in CLOCK_KINDS if not (rt and c == 'A')]
+    pairs = [(a, b) for a in kinds for b in kinds]
+    pc, cc = pairs[k % len(pairs)]
+    t0, t1 = rng.sample(['2', '1/2', '4'] if rt else NONUNIT_TEMPI, 2)
+    scale = Fraction(1, 64) if rt else Fraction(1)
+
+    def d():
+        return str(Fraction(rng.choice(['1/8', '1/4', '3/8', '1/2', '1', '3/4'])) * scale)
+
+    def send():
+        return ['S', rng.choice(['0', '1/8', '1/4', None]), rng.randint(0, 99)]
+    root = [['Y', d()], ['P', 1, pc]]
+    play = ['F', 2] if (pc == cc and rng.random() < 0.3) else ['P', 2, cc]
+    parent = [send(), ['Y', d()]]
+    if rng.random() < 0.4:
+        parent.append(['Y', d()])
+    if pc not in ('S', 'A') and rng.random() < 0.4:
+        parent.append(['T', pc[1], rng.choice(['2', '1/2', '4'])])
+    parent += [play, send(), ['Y', d()], send()]
+    gc = rng.choice(kinds)
+    child = [send(), ['Y', d()], ['P', 3, gc], ['Y', d()], send()]
+    grand = [send(), ['Y', d()], send()]
+    return {'tempos': [t0, t1], 'bodies': [root, parent, child, grand],
+            'main': [['P', 0, 'S' if rt else rng.choice(['S', 'S', 'A', ['T', 1]])]], 'tail': '0'}
+
+
+def gen_rt_tempo_prog(rng):
+    """RT scenario class: routines ON a TempoClock change its tempo while running late (the runner busy-waits before
+    every tempo change), then yield and send bundles with latency; sometimes a routine on another clock changes it."""
+    tempos = [rng.choice(['1', '2', '4', '1/2']), rng.choice(['2', '4', '1/2'])]
+
+    def d():
+        return str(Fraction(rng.choice(['1/8', '1/4', '3/8', '1/2'])) / 32)
+
+    def send():
+        r = rng.random()
+        if r < 0.6:
+            return ['S', rng.choice(['0', '1/8', '1/4', '1/2', None, '-1/4']), rng.randint(0, 99)]
+        return ['B', rng.choice(['0', '1/8']), [['m', rng.randint(0, 99)], ['b', '1/4', [['m', rng.randint(0, 99)]]]]]
+
+    def tempo_body(i):
+        b = [send(), ['Y', d()]]
+        for _ in range(rng.randint(1, 2)):
+            b += [['T', i, rng.choice(['1', '2', '4', '1/2'])], ['Y', d()], send()]
+            if rng.random() < 0.5:
+                b += [['Y', d()], send()]
+        return b
+    bodies = [tempo_body(0), tempo_body(1)]
+    other = [['Y', d()], ['T', 0, rng.choice(['2', '4'])], ['Y', d()], send()]
+    bodies.append(other)
+    main = [['P', 0, ['T', 0]]]
+    r = rng.random()
+    if r < 0.4:
+        main.append(['P', 1, ['T', 1]])
+    elif r < 0.6:
+        main.append(['P', 0, ['T', 0]])       # two routines of the same clock, both changing its tempo
+    elif r < 0.75:
+        main.append(['P', 2, 'S'])            # the tempo is changed from another clock's thread
+    return {'tempos': tempos, 'bodies': bodies, 'main': main, 'tail': '0'}
+
+
+# ------------------------------------------------------------------ law probes: sched / defer / play / beats setter / etempo
+def probe_combos(rt):
+    kinds = [c for c in CLOCK_KINDS if not (rt and c == 'A')]
+    combos = []
+    for op in (['sched', 'play'] if rt else ['sched', 'defer', 'play']):
+        for parent in kinds:
+            for target in kinds:
+                combos.append((op, parent, target))
+    for op in (['beats', 'tempo', 'tempo'] if rt else ['beats', 'etempo', 'tempo']):
+        for i in range(2):
+            combos.append((op, ['T', i], ['T', i]))
+    # the pairs a seeded change is most likely to hide in come first: App <- Tempo, Tempo <- App, Tempo_i <- Tempo_j
+    prio = [x for x in combos if x[1] != x[2] and 'S' not in (x[1], x[2])]
+    return prio + [x for x in combos if x not in prio]
+
+
+def gen_probe(rng, k, rt=False):
+    combos = probe_combos(rt)
+    op, parent, target = combos[k % len(combos)]
+    scale = Fraction(1, 32) if rt else Fraction(1)
+    q = lambda: str(Fraction(rng.choice(['1/8', '1/4', '3/8', '1/2', '1'])) * scale)
+    t0, t1 = rng.sample(['2', '1/2', '4'], 2)
+    return {'tempos': [t0, t1], 'parent': parent, 'target': target, 'op': op, 'start': q(), 'adv': q(),
+            'delta': q(), 'val': rng.choice(['2', '4', '1/2', '1']) if op in ('etempo', 'tempo') else
+            # RT: only move the beats forward (a task moved to the past runs at once; moved to the future it would wait)
+            str(Fraction(rng.randint(512, 1024), 8) if rt else Fraction(rng.randint(0, 64), 8)),
+            'after': q()}
+
+
+def probe_expected(pr, o):
+    """The laws, computed by the harness (Fractions): returns list of (what, observed, expected) that differ."""
+    F = Fraction
+    bad = []
+    if 'fatal' in o:
+        return [('probe crashed', o['fatal'][-300:], '')]
+    if not o.get('done'):
+        return None                                    # not completed (RT under load): not compared
+    base = [F(x) for x in o['clock_base']]
+    tempo = [F(t) for t in pr['tempos']]
+
+    def s2b(c, s):
+        return s if c in ('S', 'A') else (s - base[c[1]]) * tempo[c[1]]
+
+    def dur(c, beats):                                   # seconds spanned by `beats` of clock c
+        return beats if c in ('S', 'A') else beats / tempo[c[1]]
+    T0 = F(o['root']['secs'])
+    T = T0 + F(pr['start']) + dur(pr['parent'], F(pr['adv']))
+
+    def chk(what, got, exp):
+        if F(got) != exp:
+            bad.append((what, str(got), str(exp)))
+    chk('parent logical seconds at the operation', o['at_op']['secs'], T)
+    chk('parent clock beats at the operation', o['at_op']['beats'], s2b(pr['parent'], T))
+    op, tg = pr['op'], pr['target']
+    if op in ('sched', 'defer'):
+        exp = T + dur(tg, F(pr['delta']))
+        chk('%s(%s) from a routine on %s onto %s: logical seconds when the function ran' % (op, pr['delta'], pr['parent'], tg), o['ran']['secs'], exp)
+        chk('target clock beats when the function ran', o['ran']['beats'], s2b(tg, T) + (F(pr['delta']) if tg not in ('S', 'A') else dur(tg, F(pr['delta']))))
+    elif op == 'play':
+        chk('child played on %s from a routine on %s: seconds of its first resumption' % (tg, pr['parent']), o['ran']['secs'], T)
+    elif op == 'beats':
+        chk('clock.beats right after clock.beats = v', o['after_set']['beats'], F(pr['val']))
+        chk('seconds right after clock.beats = v', o['after_set']['secs'], T)
+        # documented: the change re-bases the clock at the thread's LOGICAL time; a task already running keeps its
+        # beat position, so after yielding d it is due at beat (old beats + d), whose seconds follow the new base
+        ob = s2b(pr['parent'], T)
+        chk('beats after clock.beats = v and yielding d', o['ran']['beats'], ob + F(pr['after']))
+        chk('seconds after clock.beats = v and yielding d', o['ran']['secs'], T + dur(pr['parent'], ob + F(pr['after']) - F(pr['val'])))
+    elif op == 'tempo':
+        T2 = T + F(pr['after']) / F(pr['val'])
+        chk('beats right after clock.tempo = v (issued by a routine of that clock)', o['after_set']['beats'], s2b(pr['parent'], T))
+        chk('logical seconds after clock.tempo = v and yielding d beats (must be T + d / v whatever the lateness)', o['ran']['secs'], T2)
+        chk('beats after clock.tempo = v and yielding d', o['ran']['beats'], s2b(pr['parent'], T) + F(pr['after']))
+        if 'timetag' in o:
+            chk('timetag - offset of a bundle sent with latency %s after the tempo change (logical time + latency, in 2^-32 s)' % pr['delta'],
+                int(o['timetag']) - int(o['osc_offset']), (T2 + F(pr['delta'])) * (1 << 32))
+    elif op == 'etempo':
+        chk('beats right after etempo', o['after_set']['beats'], s2b(pr['parent'], T))
+        chk('seconds after etempo(v) and yielding d', o['ran']['secs'], T + F(pr['after']) / F(pr['val']))
+        chk('beats after etempo(v) and yielding d', o['ran']['beats'], s2b(pr['parent'], T) + F(pr['after']))
     return bad
